@@ -43,6 +43,15 @@ def step (toks : List String) : String :=
     match loopStart sl (RS.ofScript (parseNats script)) with
     | (some (p, leg), rs) => s!"{p} {showLeg leg} {rs.verdict}"
     | (none, rs) => s!"none - {rs.verdict}"
+  -- the whole slot map of the start draw: for a = 0 .. total-1 the (position, relative variable)
+  -- the walk over the ops in chain order selects
+  | ["startmap", slots, _total] =>
+    let sl := parseSlots slots
+    let items := (List.range (totalVars sl)).map fun a =>
+      match pickLeg sl 0 a with
+      | some (p, r) => s!"{p}:{r}"
+      | none => "none"
+    if items.isEmpty then "-" else String.intercalate "," items
   -- cumulative exit thresholds at one vertex
   | ["exitdist", calls, op, ent] =>
     match buildQ "1" calls, parseOp op with
